@@ -191,15 +191,44 @@ def run_recv_script(stream, script, segs=None, ending="eof", ws_kwargs=None, tim
         # response in one segment, frames per `segs`
         peer.after = b""
 
-        def on_open(c):  # noqa
-            if segs is None:
-                c.deliver(stream)
-            else:
-                c.deliver_segments(segs)
+        def finish(c):
             if ending == "eof":
                 c.peer_close()
             elif ending == "reset":
                 c.peer_reset()
+
+        def on_open(c):  # noqa
+            if segs is None:
+                c.deliver(stream)
+                finish(c)
+                return
+            # ("pause", dt) items split the plan into groups delivered at later virtual times;
+            # ("eagain", None) makes the next transport read fail with EAGAIN although the socket has a timeout
+            groups, cur, t = [], [], 0.0
+            for it in segs:
+                if isinstance(it, tuple) and it[0] == "pause":
+                    groups.append((t, cur))
+                    cur = []
+                    t += it[1]
+                elif isinstance(it, tuple) and it[0] == "eagain":
+                    import errno as _errno
+                    cur.append((net.ERROR, BlockingIOError(_errno.EAGAIN, "Resource temporarily unavailable")))
+                else:
+                    cur.append(it)
+            groups.append((t, cur))
+            S = sched.CURRENT
+            state["pending"] = len(groups)
+
+            def deliver(group, last):
+                c.deliver_segments(group)
+                state["pending"] -= 1
+                if last:
+                    finish(c)
+            for gi, (gt, group) in enumerate(groups):
+                if gt == 0.0 or S is None:
+                    deliver(group, gi == len(groups) - 1)
+                else:
+                    S.at(S.now + gt, deliver, group, gi == len(groups) - 1)
         peer.on_open = on_open
     else:
         # the whole server byte stream (response + frames) cut at head_cuts
@@ -235,7 +264,7 @@ def run_recv_script(stream, script, segs=None, ending="eof", ws_kwargs=None, tim
                 if isinstance(e, (sched.SimAbort, KeyboardInterrupt)):
                     raise
                 k = classify_exc(W, e)
-                if k == "timeout" and conn.rx and tries < max_timeouts:
+                if k == "timeout" and (conn.rx or state.get("pending", 0) > 0) and tries < max_timeouts:
                     # an injected timeout: the call is retried
                     timeouts += 1
                     tries += 1
